@@ -438,3 +438,26 @@ MANIFEST_TEXT["C16"] = {
              "mapping lists with the left-to-right fold of single renamings."),
     "note": "Trusted: CPython, z3, the 10-line reference substitution in pvm/checks/c16.py.",
 }
+
+META["C17"] = {
+    "level": "exploration",
+    "rule": ("cases over 1-4 variables with 1-3 alternatives per side (boxes, some with an extra oblique constraint; "
+             "disjoint with gaps >= 1/8, touching, overlapping, with empty alternatives): (a) the disjointness "
+             "constructor vs exact pairwise feasibility, (b) nested membership at points on / next to a boundary vs "
+             "exact evaluation, (c) nested <= vs exact containment of unions (soundness only), (d) merge of two "
+             "compound contracts built with from_strings vs z3: union(result) == union(a1) & union(a2) exactly, for "
+             "assumptions and guarantees, no empty alternative kept, interface = unions. Non-trivial = all executed "
+             "cases; distinct = case digests."),
+    "required": ["disjointness:disjoint:overlap=False:returned", "disjointness:touching:overlap=True:ValueError",
+                 "disjointness:overlapping:overlap=True:ValueError", "membership:True", "membership:False",
+                 "le:answer=True:counterexample=unsat", "le:answer=False:counterexample=sat", "merge:returned",
+                 "merge:result-alternatives"],
+    "assumptions": [NUM, TB],
+    "soft_s": {"quick": 200, "thorough": 2500},
+}
+MANIFEST_TEXT["C17"] = {
+    "technique": RM + "NestedTermList / compound merge executed on generated unions of boxes; z3 disjunction semantics as the oracle",
+    "text": ("Exploration: membership, the disjointness constructor, the nested <= and compound merging are compared "
+             "with the exact union-of-polyhedra semantics decided by z3."),
+    "note": "Trusted: CPython, z3, pvm/exact.py.",
+}
